@@ -20,9 +20,12 @@ request leaves the model unchanged and the sequence goes on.  After each request
                a definition;
   other-category-changed
                categories of another MFL group (absorption + delay + dose attributes / elimination
-               / distribution) are unchanged; changes inside the absorption group are either a
+               / distribution) are unchanged; other changes inside the absorption group are either a
                documented coupling (table COUPLINGS, with the quoted sentence) or counted as class
                `undocumented-coupling:<f>:<category>` -- never flagged;
+  dose-attribute-changed:<fn>:LAGTIME|BIO
+               lag time and bioavailability of the first dose compartment survive every request of
+               the absorption group unless the request documents otherwise (COUPLINGS);
   idempotence  f(f(m)) has the same detectors and is function-equivalent to f(m) (pv.modeleval at
                two sample points; a one-to-one renaming of parameters is not a change);
   reversible   for the documented inverse pairs (add/remove peripheral, lag time, bioavailability;
@@ -56,7 +59,8 @@ RULE = (
     'ABSORPTION(*);ELIMINATION(*);LAGTIME([ON,OFF]);TRANSITS([0,1,2,3,5],*);PERIPHERALS(0..3) plus add/remove_peripheral_compartment, '
     'add/remove_bioavailability (3 variants), add_metabolite (plain/presystemic), add_effect_compartment, set_direct_effect, '
     'add_indirect_effect. A refused request leaves the model unchanged and the sequence continues. Non-trivial = length >= 2, '
-    'requests from >= 2 categories, all requests succeeded. Distinct = (start model, sequence of request labels). Classes hold the '
+    'requests from >= 2 categories, all requests succeeded. Sub-check dose_attributes uses the same oracle with histories '
+    '[optional absorption request] + [add_lag_time and/or add_bioavailability] + 1-2 absorption / transit requests.  Distinct = (start model, sequence of request labels). Classes hold the '
     'ordered category pair matrix (pair:A>B), refusals by function and message, documented / undocumented couplings.'
 )
 ASSUMPTIONS = [
@@ -197,6 +201,37 @@ def _strategy(maxlen):
         dict(
             start=st.integers(0, len(STARTS) - 1),
             reqs=st.one_of(distinct, distinct, free),
+            pt=st.integers(0, 5),
+        )
+    )
+
+
+def _index_of(label):
+    al = alphabet()
+    for ci, c in enumerate(CATS):
+        for i, r in enumerate(al[c]):
+            if r.label == label:
+                return [ci, i]
+    raise HarnessError(f'no request labelled {label}')
+
+
+def _strategy_dose_attributes(maxlen):
+    """Profile "dose attributes": the history first gives the dose a lag time and / or a bioavailability (both in two
+    thirds of the cases, either order), optionally after an absorption request, then 1-2 absorption / transit
+    requests follow: these must carry the attributes along unless documented otherwise."""
+    lag = _index_of('LAGTIME(ON)')
+    bios = [_index_of('add_bioavailability'), _index_of('add_bioavailability(logit)')]
+    bio = st.sampled_from(bios)
+    both = st.tuples(bio, st.booleans()).map(lambda t: [lag, t[0]] if t[1] else [t[0], lag])
+    prefix = st.one_of(both, both, bio.map(lambda b: [b]), st.just([lag]))
+    absorption = st.tuples(st.just(0), st.integers(0, 3)).map(list)
+    transits = st.tuples(st.just(2), st.integers(0, 9)).map(list)
+    first = st.one_of(st.just([]), st.just([]), absorption.map(lambda a: [a]))
+    tail = st.lists(st.one_of(absorption, absorption, transits), min_size=1, max_size=2)
+    return st.fixed_dictionaries(
+        dict(
+            start=st.integers(0, len(STARTS) - 1),
+            reqs=st.tuples(first, prefix, tail).map(lambda t: (t[0] + t[1] + t[2])[:maxlen]),
             pt=st.integers(0, 5),
         )
     )
@@ -588,14 +623,34 @@ def _check_pk_step(req, m, m1, d0, undef0, pts, ctx, classes):
         )
     nev += 1
     # ---- other categories ----------------------------------------------------------------
-    coupled = False
+    # how many of the dose attributes (lag time, bioavailability) the model had before an absorption / transit request
+    if req.cat in ('ABSORPTION', 'TRANSITS'):
+        have = '+'.join(n for n, c in (('lag', 'LAGTIME'), ('bio', 'BIO')) if d0[c])
+        if have:
+            changed = 'change' if d0[req.cat] != d1[req.cat] else 'same'
+            classes.append(f'{have} then {req.cat.lower()} {changed}')
+            classes.append(f'{have} then {req.label}')
     for cat in CATS[:6]:
         if cat == req.cat or d0[cat] == d1[cat]:
             continue
-        coupled = True
         doc = coupling_doc(req, cat)
         if doc is not None:
             classes.append(f'documented-coupling:{req.label}:{cat}')
+        elif cat == 'LAGTIME' and d0['LAGTIME'] and d0['ABSORPTION'] in ('SEQ-ZO-FO', 'INST'):
+            # the model is already in a combination documented as not supported (lag time with instantaneous or
+            # sequential absorption): what happens to the lag time from there is not specified
+            classes.append(f'unsupported-state:lag-with-{d0["ABSORPTION"]}:{req.label}')
+        elif cat in ('LAGTIME', 'BIO') and GROUP[req.cat] == 'absorption':
+            # Lag time and bioavailability are attributes of the dose: a request of the absorption group moves them
+            # with the dose (set_zero_order_absorption / set_first_order_absorption / set_transit_compartments do so
+            # explicitly) unless its documentation says otherwise (COUPLINGS: INST and SEQ-ZO-FO do not support a lag
+            # time, transit compartments replace it). Nothing documents the removal -- or appearance -- of a
+            # bioavailability, or of a lag time under ZO / FO / add/remove_bioavailability.
+            raise Violation(
+                f'dose-attribute-changed:{req.fname}:{cat}', observed=d1[cat], expected=d0[cat],
+                detail=f'{ctx}; {cat} of the first dose compartment before: {d0[cat]} ({d0["dosing"]}), after: {d1[cat]} ({d1["dosing"]}); '
+                f'ODE system now {_ode_str(m1)}',
+            )
         elif GROUP[req.cat] == GROUP[cat] or GROUP[req.cat] == 'ext':
             classes.append(f'undocumented-coupling:{req.label}:{cat}')
         else:
@@ -903,7 +958,9 @@ def selfcheck():
 
 
 SUBCHECKS = [
-    SubCheck('sequences', lambda: _strategy(4), run_sequence, quick=3200, thorough=12000),
+    SubCheck('sequences', lambda: _strategy(4), run_sequence, quick=2600, thorough=12000),
+    # lag time / bioavailability first, then absorption and transit requests
+    SubCheck('dose_attributes', lambda: _strategy_dose_attributes(5), run_sequence, quick=640, thorough=4000),
     # longer histories only in the thorough tier
     SubCheck('sequences6', lambda: _strategy(6), run_sequence, quick=0, thorough=6000),
 ]
